@@ -202,9 +202,20 @@ def has_empty_multi(g):
     return t == 'GC' and any(has_empty_multi(h) for h in d)
 
 
+def ring_revisits_vertex(g):
+    for a in L.atoms(g):
+        if a[0] == 'PG':
+            for ring in a[1]:
+                body = ring[:-1]
+                if len(set(body)) < len(body): return True
+    return False
+
+
 def known_key(c, clause='', text=''):
     """input classes of the recorded findings (known_findings.json, property C03): specific to call, path and failing clause"""
     keys = []
+    if c.call == 'CU' and clause == 'i-valid' and c.R is not None and ring_revisits_vertex(c.R):
+        keys.append('coverageunion-boundary-touches-at-vertex')
     if not sc_path(c):
         return keys
     low = any(k in clause for k in ('ii-low', 'ii-conv', 'iii-pts', 'iii-segs'))
@@ -291,6 +302,32 @@ def gen_cases(ctx, rng, n_pairs, n_unary, n_full, n_near):
         ra = L.rects_union_input(rng, rng.randint(2, 4), 6); rb = L.rects_union_input(rng, rng.randint(1, 3), 6)
         cases.append(Case('UU', ('GC', ra), family='unary', label='rectangles'))
         cases += expand_pair(rng, ('GC', ra) if rng.random() < 0.3 else ra[0], ('GC', rb) if rng.random() < 0.3 else rb[0], 'grid', 'rectangles')
+    # disjoint envelopes, one operand a GEOMETRYCOLLECTION (not a Multi*) of >= 2 overlapping / touching polygons: the
+    # "combine the elements" short-cut of HeuristicOverlay for UNION / SYMDIFFERENCE must not be taken for it
+    for i in range(max(4, n_pairs // 8)):
+        k = rng.random()
+        if k < 0.4:
+            els = L.rects_union_input(rng, rng.randint(2, 4), 6); lab = 'overlapping-rectangles'
+        elif k < 0.7:
+            P = L.gen_poly(rng, 8, holes=False); sp = L.split_by_chord(rng, P)
+            els = list(sp) if sp else [P, L.shift(P, L.M, 0)]; lab = 'touching-along-chord'
+        else:
+            P = L.gen_poly(rng, 8)
+            els = [P, L.shift(P, L.M * rng.randint(1, 3), L.M * rng.randint(0, 2))] + ([L.gen_poly(rng, 6)] if rng.random() < 0.4 else []); lab = 'overlapping-copies'
+        if rng.random() < 0.3: els.append(L.gen_atom(rng, rng.choice('LP'), 6))
+        A = ('GC', els)
+        B = L.gen_geom(rng, rng.choice(['A', 'A', 'L', 'P', 'MA', 'GC']), 6)
+        if rng.random() < 0.25: B = ('GC', L.rects_union_input(rng, 2, 5))
+        pa, pb = L.all_pts(A), L.all_pts(B)
+        if not pa or not pb: continue
+        # move B so that the envelopes are disjoint (a gap of at least one unit, or exactly touching envelopes for contrast)
+        gap = L.M * rng.choice([1, 1, 5, 50])
+        dx = max(p[0] for p in pa) - min(p[0] for p in pb) + gap
+        B = L.shift(B, dx, L.M * rng.randint(-3, 3)) if rng.random() < 0.7 else L.shift(B, L.M * rng.randint(-3, 3), max(p[1] for p in pa) - min(p[1] for p in pb) + gap)
+        for kk in ('INT', 'UNI', 'DIF', 'SYM'):
+            cases.append(Case(kk, A, B, family='disjoint-gc', label=lab))
+            cases.append(Case(kk, B, A, family='disjoint-gc', label=lab + '/swap'))
+        cases.append(Case('UU', A, family='disjoint-gc', label=lab))
     # unary calls
     for i in range(n_unary):
         k = rng.random()
@@ -539,7 +576,7 @@ def run(ctx):
     for c in cases[:4]:
         ctx.sample(json.dumps(c.describe())[:400])
     # self-check of the generator: the case split of the specification must have been exercised
-    need = {'call': ['INT', 'UNI', 'DIF', 'SYM', 'UU', 'UC', 'DSU', 'CU', 'CLIP'], 'family': ['grid', 'full', 'near', 'unary', 'clip']}
+    need = {'call': ['INT', 'UNI', 'DIF', 'SYM', 'UU', 'UC', 'DSU', 'CU', 'CLIP'], 'family': ['grid', 'full', 'near', 'unary', 'clip', 'disjoint-gc']}
     for k, vs in need.items():
         for v in vs:
             if dist[k].get(v, 0) == 0:
